@@ -86,11 +86,29 @@ USES = ['.tree_height.mean', '.moment(1)', '.sfs.mean', '.total_branch_length.me
 DEM2 = "pg.Demography(pop_sizes={'a': 1.0, 'b': 2.0}, migration_rates={('a', 'b'): 0.5, ('b', 'a'): 0.25})"
 
 
+def short_name(expr):
+    """compact, stable label of a route for the violation signature (the full expression is in the detail)"""
+    import re
+    for pat, lab in (('PopulationSplit(time=x', 'PopulationSplit(time)'), ('multiplier=x', 'PopulationSplit(multiplier)'),
+                     ("DiscretizedRateChanges(trajectory={'pop_0'", 'DiscretizedRateChanges(pop-trajectory)'),
+                     ("DiscretizedRateChanges(trajectory={('a', 'b')", 'DiscretizedRateChanges(migration-trajectory)'),
+                     ("DiscretizedRateChange(trajectory=lambda u: x, start_time=0", 'DiscretizedRateChange(pop-trajectory,t0)'),
+                     ("pop='pop_0')", 'DiscretizedRateChange(pop-trajectory)'), ("source='a', dest='b')", 'DiscretizedRateChange(migration-trajectory)'),
+                     ('ExponentialPopSizeChanges(', 'ExponentialPopSizeChanges(initial_size)'),
+                     ("ExponentialRateChanges(initial_rate={'pop_0'", 'ExponentialRateChanges(initial_size)'),
+                     ("ExponentialRateChanges(initial_rate={('a', 'b')", 'ExponentialRateChanges(initial_rate)')):
+        if pat in expr:
+            return lab
+    s = expr.replace(DEM2, 'DEM2').replace("pop_sizes={'a': 1.0, 'b': 2.0}", 'P2').replace('pg.', '')
+    s = re.sub(r'\s+', '', s)
+    return s if len(s) <= 110 else s[:70] + '..' + s[-36:]
+
+
 def build_table():
     T = []
 
     def add(cls, expr, inv, val):
-        T.append(dict(cls=cls, expr=expr, inv=inv, val=val))
+        T.append(dict(cls=cls, expr=expr, inv=inv, val=val, name=short_name(expr)))
 
     # --- SFS statistics with two loci
     def loci_inv(rng):
@@ -202,7 +220,7 @@ def build_table():
               "pg.Coalescent(n=n, demography=pg.Demography(pop_sizes={'pop_0': {0: y, t: x}})).sfs.mean",
               # sizes supplied through trajectories of discretised events: looked at when the epochs are built
               "pg.Coalescent(n=n, demography=pg.Demography(pop_sizes={'pop_0': y}, events=[pg.DiscretizedRateChange(trajectory=lambda u: x, start_time=t, end_time=t + 1, pop='pop_0')])).tree_height.mean",
-              "pg.Coalescent(n=n, demography=pg.Demography(events=[pg.DiscretizedRateChange(trajectory=lambda u: x, start_time=0, pop='pop_0')])).tree_height.mean",
+              "pg.Coalescent(n=n, demography=pg.Demography(events=[pg.DiscretizedRateChange(trajectory=lambda u: x, start_time=0, end_time=1.0, step_size=0.25, pop='pop_0')])).tree_height.mean",
               "pg.Coalescent(n=n, demography=pg.Demography(pop_sizes={'pop_0': y}, events=[pg.DiscretizedRateChanges(trajectory={'pop_0': lambda u: x}, start_time=t, end_time=t + 1)])).tree_height.mean",
               "pg.Coalescent(n=n, demography=pg.Demography(pop_sizes={'pop_0': y}, events=[pg.ExponentialPopSizeChanges(initial_size={'pop_0': x}, growth_rate=0.5, start_time=t, end_time=t + 1)])).tree_height.mean",
               "pg.Coalescent(n=n, demography=pg.Demography(pop_sizes={'pop_0': y}, events=[pg.ExponentialRateChanges(initial_rate={'pop_0': x}, growth_rate=0.5, start_time=t, end_time=t + 1)])).total_branch_length.mean"):
@@ -413,17 +431,17 @@ def eval_request(ctx, pg, cls, expr, values, expect):
             if is_timeout(e):
                 raise
             raised = f'{type(e).__name__}: {str(e)[:120]}'
-    route = expr
+    route = short_name(expr)
     ctx.case(dict(cls=cls, route=route, values=values, expect=expect, raised=raised),
              (cls, route, repr(sorted(values.items(), key=str))) if expect == 'raise' else None)
     ctx.count(f'{expect}:{cls}')
     if raised:
         ctx.count(f'raised:{cls}:{raised.split(":")[0]}')
     if expect == 'raise' and raised is None:
-        ctx.violation(f'not-rejected:{cls}:{route}', cls=cls, route=route, values=values, expect=expect, expected='an exception',
+        ctx.violation(f'not-rejected:{cls}:{route}', cls=cls, route=route, expr=expr, values=values, expect=expect, expected='an exception',
                       observed=f'returned {str(ret)[:160]}', logged=[m for _, m in lc.records][:2], reproducer=reproducer(expr, values))
     elif expect == 'ok' and raised is not None:
-        ctx.violation(f'valid-rejected:{cls}:{route}', cls=cls, route=route, values=values, expect=expect, expected='a result',
+        ctx.violation(f'valid-rejected:{cls}:{route}', cls=cls, route=route, expr=expr, values=values, expect=expect, expected='a result',
                       observed=raised, reproducer=reproducer(expr, values))
 
 
@@ -434,6 +452,10 @@ STIFF_STATS = ['c.tree_height.mean', 'c.tree_height.var', 'c.tree_height.m2', 'c
                'c.tree_height.accumulate(1, [t, 100 * t])', 'c.moment(1, end_time=t)', 'c.tree_height.demes[p0].mean',
                'c.sfs.cov.data', 'c.sfs.corr.data', 'c.tree_height.quantile(0.5)', 'c.tree_height.std', 'c.moment(3)',
                'c.sfs.get_mutation_config([1] + [0] * (c.lineage_config.n - 2), theta)']
+
+
+def stat_name(st):
+    return st.replace('c.', '', 1).split('(')[0].replace('.data', '')
 
 
 def log10u(rng, lo, hi):
@@ -498,14 +520,17 @@ def eval_stiff(ctx, pg, sc):
                 if is_timeout(e):
                     raise
                 raised = f'{type(e).__name__}: {str(e)[:100]}'
-        finite = raised is None and bool(np.all(np.isfinite(np.asarray(val, dtype=float))))
+        arr = None if raised else np.asarray(val)
+        # a complex value (square root of a negative variance) is not a real number either
+        finite = raised is None and not np.iscomplexobj(arr) and bool(np.all(np.isfinite(arr.astype(float))))
         outcome = 'raised' if raised else 'logged' if lc.records else 'finite' if finite else 'SILENT-NONFINITE'
         ctx.case(dict(cfg=cfg, stat=st, outcome=outcome), (repr(cfg), st))
         ctx.count(f'stiff:{outcome}'); ctx.count(f'stiff:{cfg["model"][0]}')
         if outcome == 'SILENT-NONFINITE':
-            ctx.violation(f'silent-nonfinite:{st}', family='stiff', scenario=dict(sc, stats=[st]), stat=st,
+            ctx.violation(f'silent-nonfinite:{stat_name(st)}', family='stiff', scenario=dict(sc, stats=[st]), stat=st,
                           expected='finite value, an exception, or a phasegen log record',
-                          observed=str(np.asarray(val, dtype=float).tolist())[:300])
+                          observed=str(arr.tolist())[:300],
+                          reproducer=f'cfg = {cfg!r}; t = {sc["t"]!r}; theta = {sc["theta"]!r}; c = props.c20.make_stiff(pg, cfg); {st}')
 
 
 # ----------------------------------------------------------------------------------------------- driver
@@ -544,4 +569,4 @@ def replay(ctx, payload):
     if payload.get('family') == 'stiff' or payload['signature'].startswith('silent-nonfinite'):
         eval_stiff(ctx, pg, payload['scenario'])
     else:
-        eval_request(ctx, pg, payload['cls'], payload['route'], payload['values'], payload['expect'])
+        eval_request(ctx, pg, payload['cls'], payload['expr'], payload['values'], payload['expect'])
